@@ -58,7 +58,7 @@ def cases(tier, seed):
                        # weights must not inherit the dtype of the data
                        'variant': 'int' if (i // 6) % 2 else 'plain',
                        'nmax': 40},
-                'n_tuples': int(r.choice([8, 16, 30])),
+                'n_tuples': int(r.choice([8, 16, 30, 1, 2, 4, 6])),
                 'seed': int(r.randint(1000))})
   return out
 
